@@ -51,7 +51,8 @@ ASSUMPTIONS = h5.ASSUMPTIONS + [
     "copy.copy(pdu_conf) is shallow and nothing else aliases the caller's PduConfig; the caller's PduConfig and "
     "parameter object are compared field by field after construction (model: returned caller_conf_after / params_after)",
     "a Python str file name is represented by its UTF-8 octets (names with lone surrogates are outside the model); "
-    "MetadataParams.closure_requested is a bool (0/1); FinishedParams.file_store_responses is a list (never None) at construction",
+    "MetadataParams.closure_requested is a bool (0/1); FinishedParams.file_store_responses None / [] / omitted are all driven "
+    "through the constructor in the operation histories (Run/DirHist.v, fin_new_none)",
     "Finished file-store responses are FileStoreResponseTlv objects and the fault location an EntityIdTlv; Metadata options "
     "are CfdpTlv objects (other AbstractTlvBase subclasses pack through the same CfdpTlv.pack)",
     "the member sets of ConditionCode / DeliveryCode / FileStatus / ChecksumType are tied by exhaustive sweeps of the first "
@@ -645,8 +646,8 @@ def streams(tier, rng):
             a = [ids, flags, [1, 3, 5], [1] + _nm(n), [1, 0x62], [1, k]] + [[2] + _val(255) for _ in range(k)]
             cases.append((1354, a + [[]]))
     # the same sweep around every multiple of 256 / 512 of the packet length up to 1300 (+-8)
-    for target in range(256, 1301, 256):
-        for d in range(-8, 9):
+    for target in list(range(256, 1301, 256)) + [4096]:      # ... and 4 KiB
+        for d in (range(-8, 9) if target < 4096 else range(-3, 4)):
             ids, flags = _rand_conf(rng)
             hl = 4 + 2 * ids[1] + ids[5]
             fixed = hl + 1 + 1 + (8 if flags[1] else 4) + 1 + 1 + (2 if flags[2] else 0)     # with empty names, no options
@@ -676,8 +677,8 @@ def streams(tier, rng):
         ids, flags = _rand_conf(rng)
         a = [ids, flags, [4, 0, 1], _rand_fault(rng), [n]] + [_rand_resp(rng, True) for _ in range(n)]
         cases.append((1344, a + [[]]))
-    for target in range(256, 1301, 256):         # packet length +-8 around every multiple of 256
-        for d in range(-8, 9):
+    for target in list(range(256, 1301, 256)) + [4096]:         # packet length +-8 around every multiple of 256, 4 KiB
+        for d in (range(-8, 9) if target < 4096 else range(-3, 4)):
             ids, flags = _rand_conf(rng)
             hl = 4 + 2 * ids[1] + ids[5]
             rest = target + d - (hl + 2 + (2 if flags[2] else 0))
@@ -878,6 +879,9 @@ def _check_decoded_fin(b, f, what):
     hd, ids, flags, lens, dt, plen, codes, fault, resps, _ = _split_fin_fields(f)
     hl = _hl(ids)
     pl = hl + b[1] * 256 + b[2]
+    if flags[2] == 1 and len(b) >= pl and h5.crc16_bitwise(b[:pl]) != 0:
+        return ("C06/FinishedPdu.unpack/corrupted-accepted", "octets %s carry the CRC flag, their CRC-16 does not check, "
+                "and they were accepted" % list(b[:48]))
     if hd[0] != 0 or dt != 5:
         return None      # a different PDU decoded as Finished: the caller's responsibility (docstring)
     try:
@@ -900,6 +904,9 @@ def _check_decoded_md(b, f, what):
     hd, ids, flags, lens, dt, plen, par, srcv, dstv, srcg, dstg, opts, _ = _split_md_fields(f)
     hl = _hl(ids)
     pl = hl + b[1] * 256 + b[2]
+    if flags[2] == 1 and len(b) >= pl and h5.crc16_bitwise(b[:pl]) != 0:
+        return ("C06/MetadataPdu.unpack/corrupted-accepted", "octets %s carry the CRC flag, their CRC-16 does not check, "
+                "and they were accepted" % list(b[:48]))
     if hd[0] != 0 or dt != 7:
         return None
     try:
